@@ -5,6 +5,6 @@ cd /repo || exit 3
 git apply --check "$P" || { echo "patch does not apply"; exit 3; }
 git apply "$P"
 for id in "$@"; do
-  ( cd /verif && ./vcheck "$id" --tier "${TIER:-quick}" ); echo "  -> exit=$? ($id)"
+  ( cd /verif && VERIF_NO_EVIDENCE=1 ./vcheck "$id" --tier "${TIER:-quick}" ); echo "  -> exit=$? ($id)"
 done
 git -C /repo checkout -- . 
